@@ -72,6 +72,8 @@ structure Variant where
   lUPromote : Lbl := 0
   uPost : List Lbl := []
   uSleep : List Lbl := []
+  reunite : Bool := false   -- `_submit` reunites a job with a listed in-flight cloud job of an earlier execution (modelled for AWS Batch)
+  lReunite : Lbl := 0       -- `self.pending_batch_jobs[batch_job_id] = job`
   popFirst : Bool := true   -- `_process_job_status` removes the job from the pending map before its cloud calls (all but Glue)
   arrMax : Nat := 0         -- arrayer `max_array_size` (0 = larger than any group): a poll hands over at most this many
                             -- jobs of the (single) group and puts the remainder back, still stale
@@ -129,6 +131,9 @@ structure State where
   armed : Bool := false             -- environment: the next status processing hits one transient cloud error (throttling)
   faulted : Bool := false           -- ghost: such an error has been injected at some point
   dropped : List Job := []          -- ghost: jobs removed from the pending map by a processing step that then failed
+  pre : List Job := []              -- environment: jobs for which the cloud listed an in-flight job of an earlier execution
+                                    -- (`preexisting_batch_jobs`, filled by the first submission)
+  gone : List Job := []             -- environment: listed cloud jobs the API no longer knows (describe returns nothing)
   deriving Repr
 
 /-- all monitor / submission threads in creation order (thread `M k` / `U k` is element `k`) -/
@@ -192,6 +197,11 @@ def stepS (V : Variant) (s : State) : Option State :=
   match s.sph with
   | .ins =>
     let s := { s with submitted := s.submitted ++ [s.cur], hit := s.hit || s.mons.any (exiting V), sph := .call }
+    if V.reunite && s.pre.contains s.cur && !s.gone.contains s.cur then
+      -- the old cloud job still exists (whatever its status): the job is monitored under the old id
+      some { s with pending := s.pending ++ [s.cur], pre := s.pre.erase s.cur }
+    else
+    let s := { s with pre := s.pre.erase s.cur }
     if V.glue then some { s with queue := s.queue ++ [s.cur] }
     else if V.arr then some { s with queue := s.queue ++ [s.cur], arrAlive := true }
     else some { s with pending := s.pending ++ [s.cur] }
@@ -334,6 +344,8 @@ inductive Ev where
   | U (k : Nat)
   | A
   | F                      -- environment: arm one transient cloud error
+  | L (j : Job)            -- environment: the listing taken by the first submission contains an in-flight cloud job for j
+  | O (j : Job) (gone : Bool)   -- environment: that cloud job changes state; `gone` = the API no longer describes it
   deriving DecidableEq, Repr
 
 def step (V : Variant) (s : State) : Ev → Option State
@@ -342,6 +354,8 @@ def step (V : Variant) (s : State) : Ev → Option State
   | .U k => stepU V s k
   | .A => stepA V s
   | .F => if s.armed then none else some { s with armed := true, faulted := true }
+  | .L j => if s.submitted.isEmpty then some { s with pre := s.pre ++ [j] } else none
+  | .O j g => some { s with gone := if g then j :: s.gone else s.gone.erase j }
 
 def run (V : Variant) : State → List Ev → State
   | s, [] => s
@@ -356,7 +370,7 @@ inductive Reachable (V : Variant) (jobs : List Job) : State → Prop where
 /-! ### labels (for the line-by-line tie) -/
 def labelS (V : Variant) (s : State) : Option Lbl :=
   match s.sph with
-  | .ins => some V.lIns | .call => some V.lCall | .pre r => r.head? | .test => some V.lTest
+  | .ins => (if V.reunite && s.pre.contains s.cur && !s.gone.contains s.cur then some V.lReunite else some V.lIns) | .call => some V.lCall | .pre r => r.head? | .test => some V.lTest
   | .ret => V.retLine | .setPre r => r.head? | .set => some V.lSet | .testMon => some V.lTestMon
   | .newPre r => r.head? | .new => some V.lNew | .start => some V.lStart | .testSub => some V.lTestSub
   | .newSub => some V.lNewSub | .startSub => some V.lStartSub | .done => none
@@ -420,6 +434,8 @@ def awsBatch : Variant where
   glue := false
   testThread := false
   retLine := none
+  reunite := true
+  lReunite := 36
   lIns := 1
   lCall := 2
   sPre := []
